@@ -303,3 +303,63 @@ def instances(t, pool, limit: int | None = None):
         n += 1
         if limit is not None and n >= limit:
             return
+
+
+# ------------------------------------------------------------------------------------------------
+# meta-level (schematic) substitution and instantiation: the textbook definitions lifted to terms that
+# still contain metavariables. Never refuses; `policy` is the normal form for a substitution landing on
+# a metavariable that is declared fresh in the substituted variable ('drop_mv': the substitution
+# disappears -- the generator's convention; 'wrap': kept pending -- the pinned checker's convention).
+# ------------------------------------------------------------------------------------------------
+
+def msubst(t, sort: str, var: int, plug, policy: str = 'drop_mv'):
+    k = t[0]
+    if k == 'evar':
+        return plug if (sort == 'e' and t[1] == var) else t
+    if k == 'svar':
+        return plug if (sort == 's' and t[1] == var) else t
+    if k == 'sym':
+        return t
+    if k in ('imp', 'app'):
+        return (k, msubst(t[1], sort, var, plug, policy), msubst(t[2], sort, var, plug, policy))
+    if k in ('ex', 'mu'):
+        bs = 'e' if k == 'ex' else 's'
+        if bs == sort and t[1] == var:
+            return t
+        return (k, t[1], msubst(t[2], sort, var, plug, policy))
+    if k == 'mv':
+        if policy == 'drop_mv' and ((sort == 'e' and var in t[2]) or (sort == 's' and var in t[3])):
+            return t
+        return ('esub' if sort == 'e' else 'ssub', t, var, plug)
+    if k in ('esub', 'ssub'):
+        return ('esub' if sort == 'e' else 'ssub', t, var, plug)
+    raise ValueError(k)
+
+
+def minst(t, delta: dict, policy: str = 'drop_mv'):
+    """simultaneous metavariable instantiation; pending substitutions are applied to the instantiated head"""
+    k = t[0]
+    if k in ('evar', 'svar', 'sym'):
+        return t
+    if k == 'mv':
+        return delta.get(t[1], t)
+    if k in ('imp', 'app'):
+        return (k, minst(t[1], delta, policy), minst(t[2], delta, policy))
+    if k in ('ex', 'mu'):
+        return (k, t[1], minst(t[2], delta, policy))
+    if k in ('esub', 'ssub'):
+        h = minst(t[1], delta, policy)
+        p = minst(t[3], delta, policy)
+        return msubst(h, 'e' if k == 'esub' else 's', t[2], p, policy)
+    raise ValueError(k)
+
+
+def mv_ids(t) -> set:
+    return {m[1] for m in metavars(t)}
+
+
+def meta_fresh_e(t, x) -> bool:
+    """judgement 'x is not free in any instance' for meta terms (document's e_fresh), kept here so that
+    Python-side checks do not import the machine module for it"""
+    from . import refmachine as rm
+    return rm.e_fresh(t, x)
